@@ -2,7 +2,10 @@ package rewriter
 
 import (
 	"go/ast"
+	"go/token"
+	"go/types"
 	"log"
+	"strings"
 
 	"github.com/goghcrow/go-ast-matcher"
 	"github.com/goghcrow/go-imports"
@@ -254,13 +257,74 @@ func (o *optimizer) etaReduction() {
 		return true
 	}
 
+	// eta reduction evaluates $fun when the closure is created instead of
+	// every time it is called, and drops the call itself, so it is only sound
+	// when $fun is a stable function value and the call is an ordinary one:
+	//	- declared (package level) func, explicitly instantiated if generic
+	//	- MoveNext method value of the generated iterator variable (assigned once)
+	// NOT func variables / method values (may be reassigned before calling),
+	// builtins, conversions (no func value at all), f(xs...) (variadic spread)
+	var stableCallee func(ctx astmatcher.Ctx, fun ast.Expr, instantiated bool) bool
+	stableCallee = func(ctx astmatcher.Ctx, fun ast.Expr, instantiated bool) bool {
+		var id *ast.Ident
+		switch f := fun.(type) {
+		case *ast.ParenExpr:
+			return stableCallee(ctx, f.X, instantiated)
+		case *ast.IndexExpr:
+			return stableCallee(ctx, f.X, true)
+		case *ast.IndexListExpr:
+			return stableCallee(ctx, f.X, true)
+		case *ast.Ident:
+			id = f
+		case *ast.SelectorExpr:
+			x, _ := f.X.(*ast.Ident)
+			if x == nil {
+				return false
+			}
+			if strings.HasPrefix(x.Name, cstIterVar) && f.Sel.Name == cstMoveNext {
+				return !instantiated
+			}
+			if _, isPkg := ctx.ObjectOf(x).(*types.PkgName); !isPkg {
+				return false // method value
+			}
+			id = f.Sel
+		default:
+			return false
+		}
+		fn, _ := ctx.ObjectOf(id).(*types.Func)
+		if fn == nil {
+			return false
+		}
+		sig, _ := fn.Type().(*types.Signature)
+		if sig == nil || sig.Recv() != nil {
+			return false
+		}
+		return sig.TypeParams().Len() == 0 || instantiated
+	}
+
+	ordinaryCall := func(lit ast.Node) bool {
+		fun, _ := lit.(*ast.FuncLit)
+		if fun == nil || len(fun.Body.List) != 1 {
+			return false
+		}
+		ret, _ := fun.Body.List[0].(*ast.ReturnStmt)
+		if ret == nil || len(ret.Results) != 1 {
+			return false
+		}
+		call, _ := ret.Results[0].(*ast.CallExpr)
+		return call != nil && call.Ellipsis == token.NoPos
+	}
+
 	o.m.Match(
 		pattern,
 		func(c *astmatcher.Cursor, ctx astmatcher.Ctx) {
 			params := ctx.Binds["params"].(*ast.FieldList).List
 			args := ctx.Binds["args"].(ExprsNode)
-			if matched(ctx, params, args) {
-				c.Replace(ctx.Binds["fun"])
+			fun := ctx.Binds["fun"].(ast.Expr)
+			if matched(ctx, params, args) &&
+				ordinaryCall(c.Node()) &&
+				stableCallee(ctx, fun, false) {
+				c.Replace(fun)
 			}
 		},
 	)
